@@ -463,14 +463,10 @@ func ruleCompositeShapes(c *core.Ctx) {
 				if call, ok := second.Pos, true; ok {
 					_ = call
 				}
-				for _, blk := range body.Parent().Blocks {
-					for _, in := range blk.Instrs {
-						if cc, ok := in.(*ssa.Call); ok && cc.Pos() == second.Pos {
-							for _, a := range cc.Call.Args {
-								if cr, _ := core.CallResult(a); cr != nil && cr.Call.StaticCallee() != nil && core.FuncKey(cr.Call.StaticCallee()) == "reflect.Value.MapIndex" {
-									isMapIndex = true
-								}
-							}
+				if second.Call != nil {
+					for _, a := range second.Call.Common().Args {
+						if cr, _ := core.CallResult(a); cr != nil && cr.Call.StaticCallee() != nil && core.FuncKey(cr.Call.StaticCallee()) == "reflect.Value.MapIndex" {
+							isMapIndex = true
 						}
 					}
 				}
@@ -491,7 +487,12 @@ func ruleCompositeShapes(c *core.Ctx) {
 		key := core.FuncKey(fn) + "/fresh-element"
 		bad := ""
 		n := 0
-		for _, call := range core.Calls(fn) {
+		// the element loop may have been moved into a private helper of the decoder
+		var unitCalls []ssa.CallInstruction
+		for _, uf := range unitOf(c, fn) {
+			unitCalls = append(unitCalls, core.Calls(uf)...)
+		}
+		for _, call := range unitCalls {
 			f := core.StaticCallee(call)
 			if f == nil {
 				continue
